@@ -372,6 +372,9 @@ supla_esp_update_recv_cb (void *arg, char *pdata, unsigned short len) {
 								     || update->http_header_data[a] > '9' )
 								break;
 
+								if ( update->expected_file_size > 1024*1004 )
+									break; // too large for any flash map; avoids int overflow
+
 
 								update->expected_file_size = (update->expected_file_size<<3)
 										             +(update->expected_file_size<<1)+update->http_header_data[a]
